@@ -24,6 +24,8 @@ struct PropBase {
   virtual void write(size_t idx, int code) = 0;
   virtual std::string show(size_t idx) const = 0;
   virtual bool attached() const = 0;
+  virtual const void *identity() const = 0;
+  virtual bool persistent() const = 0;
 };
 
 template <class T, class Tag> struct PropT : PropBase {
@@ -40,6 +42,8 @@ template <class T, class Tag> struct PropT : PropBase {
     return o.str();
   }
   bool attached() const override { return (bool)p; }
+  const void *identity() const override { return &p.data_vector(); }
+  bool persistent() const override { return p.persistent(); }
 };
 
 template <class T, class Tag>
@@ -72,6 +76,33 @@ inline std::unique_ptr<PropBase> create_prop_kt(PolyMesh &m, int kind, int type,
   case PK_HF: return create_prop_t<Entity::HalfFace>(m, type, flavour, name, defcode);
   case PK_C: return create_prop_t<Entity::Cell>(m, type, flavour, name, defcode);
   default: return create_prop_t<Entity::Mesh>(m, type, flavour, name, defcode);
+  }
+}
+
+// look a property up by name (shared properties only); nullptr if not found
+template <class T, class Tag> std::unique_ptr<PropBase> find_prop(PolyMesh &m, const std::string &name) {
+  auto o = m.template get_property<T, Tag>(name);
+  if (!o) return nullptr;
+  return std::unique_ptr<PropBase>(new PropT<T, Tag>(*o));
+}
+template <class Tag> std::unique_ptr<PropBase> find_prop_t(PolyMesh &m, int type, const std::string &name) {
+  switch (type) {
+  case PT_INT: return find_prop<int, Tag>(m, name);
+  case PT_BOOL: return find_prop<bool, Tag>(m, name);
+  case PT_DOUBLE: return find_prop<double, Tag>(m, name);
+  case PT_STRING: return find_prop<std::string, Tag>(m, name);
+  default: return find_prop<Vec3d, Tag>(m, name);
+  }
+}
+inline std::unique_ptr<PropBase> find_prop_kt(PolyMesh &m, int kind, int type, const std::string &name) {
+  switch (kind) {
+  case PK_V: return find_prop_t<Entity::Vertex>(m, type, name);
+  case PK_E: return find_prop_t<Entity::Edge>(m, type, name);
+  case PK_HE: return find_prop_t<Entity::HalfEdge>(m, type, name);
+  case PK_F: return find_prop_t<Entity::Face>(m, type, name);
+  case PK_HF: return find_prop_t<Entity::HalfFace>(m, type, name);
+  case PK_C: return find_prop_t<Entity::Cell>(m, type, name);
+  default: return find_prop_t<Entity::Mesh>(m, type, name);
   }
 }
 
